@@ -1,6 +1,8 @@
 import KV.Base.Hex
 import KV.Model.SecretConn
 import KV.Model.MConn
+import KV.Model.Transport
+-- kvdrv: transport KV.Drv.C20.trStep KV.Drv.C20.trInit
 -- kvdrv: secretconn KV.Drv.C20.scStep KV.Drv.C20.scInit
 -- kvdrv: mconn KV.Drv.C20.mcStep KV.Drv.C20.mcInit
 /-! line protocols for the two models of C20.
@@ -184,6 +186,30 @@ def mcStep (s : MC) (line : String) : MC × String :=
         | some b => toString b.length
       (s, s!"sending={snd} queue={ch.queue.length} recving={ch.recving.length} delivered={ch.delivered.length}")
     | none => (s, "bad-op")
+  | _ => (s, "bad-op")
+
+/-! ## transport: `upg dialed=<id|-> key=<id> claim=<id> self=<id> aborted=<0|1> compat=<0|1>` -/
+
+def trInit : Unit := ()
+
+def trStep (s : Unit) (line : String) : Unit × String :=
+  let toks := tokens line
+  match toks with
+  | "case" :: _ => (s, "ok")
+  | "upg" :: rest =>
+    let dialed : Option (Option Nat) :=
+      match kv rest "dialed" with
+      | some "-" => some none
+      | some t => t.toNat?.map some
+      | none => none
+    match dialed, kvNat rest "key", kvNat rest "claim", kvNat rest "self", kvNat rest "aborted", kvNat rest "compat" with
+    | some d, some k, some c, some me, some ab, some co =>
+      match KV.Transport.upgrade d k c me (ab != 0) (co != 0) with
+      | .ok id => (s, s!"ok id={id}")
+      | .auth => (s, "auth")
+      | .self => (s, "self")
+      | .incompat => (s, "incompat")
+    | _, _, _, _, _, _ => (s, "bad-op")
   | _ => (s, "bad-op")
 
 end KV.Drv.C20
